@@ -43,7 +43,7 @@ def handlers : List (String × (List String → List String → Option Verdict))
   ("vr", Driver.C12.vr), ("cfgmut", Driver.C12.cfgmut), ("vburst", Driver.C12.vburst),
   ("mon", Driver.C18.mon),
   ("sch6", Driver.Sched.sch6), ("sch7", Driver.Sched.sch7),
-  ("adv6", Driver.Sched.adv6), ("adv7", Driver.Sched.adv7), ("rein", Driver.Sched.rein), ("rein5", Driver.Sched.rein5), ("reino", Driver.Sched.reino), ("reinlla", Driver.Sched.reinlla), ("reinidx", Driver.Sched.reinidx), ("reinrs", Driver.Sched.reinrs), ("nsf", Driver.Sched.nsf), ("flap", Driver.Sched.flap), ("tfl", Driver.Sched.tfl), ("adv9", Driver.Sched.adv7), ("advF", Driver.Sched.advF),
+  ("adv6", Driver.Sched.adv6), ("adv7", Driver.Sched.adv7), ("rein", Driver.Sched.rein), ("rein5", Driver.Sched.rein5), ("reino", Driver.Sched.reino), ("reinlla", Driver.Sched.reinlla), ("reinidx", Driver.Sched.reinidx), ("reinrs", Driver.Sched.reinrs), ("nsf", Driver.Sched.nsf), ("mwr", Driver.Sched.mwr), ("bfw", Driver.Sched.bfw), ("flap", Driver.Sched.flap), ("tfl", Driver.Sched.tfl), ("adv9", Driver.Sched.adv7), ("advF", Driver.Sched.advF),
   ("lst", Driver.C09.lst),
   ("bt", Driver.C20.bt), ("sv", Driver.C20.sv),
   ("shut", Driver.C08.shut), ("cw", Driver.C08.cw),
